@@ -26,7 +26,7 @@ Import ListNotations.
 Inductive op :=
 | ODep (slot : nat)                 (* AddDependency(slot's current resource) then read the slot's version *)
 | OTimer                            (* InvalidateAfter(tiny) — may be skipped when the harness's budget is used up *)
-| OCache (key : nat) (p : list op)  (* reactive.Cache(ctx, key, p) *)
+| OCache (key : nat) (p : list op)  (* reactive.Cache(ctx, key, p) — a compute function may leave the call out in some runs *)
 | OFail                             (* return a non-retry error (or skip, by budget) *)
 | ORetry.                           (* return RetrySentinelError (or skip, by budget) *)
 
@@ -282,6 +282,7 @@ Definition step_top (s : state) (f : frame) (rest : list frame) (arg : nat) : re
             | Some child => Some (s, FCacheLink child c :: FScript r c q :: rest, [])
             | None => Some (s, FChildBegin r key body c :: FScript r c q :: rest, [])
             end
+          else if Nat.eqb arg 2 then Some (s, FScript r c q :: rest, [])   (* the compute function does not call Cache this time *)
           else if r_cancel (getr s r) then do_fail s r (FScript r c q :: rest) false else None
       | OFail :: q =>
           if Nat.eqb arg 0 then Some (s, FScript r c q :: rest, [])
